@@ -17,6 +17,9 @@ CHECKS = {
  "C04": (MC, "TLC: Asm.tla two-pass assembler model over every emitted function (true Enc6502 sizes vs size_bytes)", "6.C04",
          "Every function emitted for the corpus (GenProg sample x placements zero page/ramchip/superchip/3E/3E+ x -O0/-O1, label-stress programs) is consumed line by line by Asm.tla; the sum of true sizes must equal the reported size.",
          "Trusted: Enc6502 table (self-checked), dasm's zero-page selection rule as modelled by ResolveMode, harness layout (non-zero-page classes >= $100)."),
+ "C06": (MC, "TLC: GenLoc generator with origin rule; replay of (line-shifting prefix x error kind x placement) into the real compiler", "6.C06",
+         "GenLoc.tla enumerates prefixes (<=3 quick, <=4 thorough) of 17 line-shifting constructs followed by one of 16 error kinds (preprocessor, parser, parse-time semantic, code generation) in the main file or an included header, with LF and CR-LF line ends, and computes the physical origin; the Error returned by compile() must carry that file, line (any physical line of a spliced logical line) and including file/line.",
+         "Trusted: renderer of items (asserted to produce the stated line counts). Columns are not checked."),
  "C07": (MC, "TLC: GenCond generator + CppRef reference semantics, replay into the real preprocessor (hook H2); CppImpl==CppRef invariant; CppTrace trace validation", "6.C07",
          "GenCond.tla enumerates every well-nested directive sequence up to the bound (exhaustive over the minimal condition alphabet, simulated over the rich one) together with the outcome the reference semantics CppRef prescribes (kept lines, final macro table, #error); each is run through the real preprocessor and compared. TLC also checks, on every sequence, that the implementation-shaped three-state machine CppImpl equals CppRef, and validates recorded H2 event traces against CppImpl.",
          "Trusted: TLC, CppRef (first-true-branch rule), renderer of directive lines. Condition operators limited to those the property names."),
